@@ -29,6 +29,7 @@ import Cte.Model.Origins
 import Cte.Model.HulcAux
 import Cte.Model.BdlData
 import Cte.Model.ConvValues
+import Cte.Model.ConvSched
 import Cte.Model.Pipeline
 import Cte.Gen.Schema
 open Cte
@@ -594,6 +595,11 @@ def opConvValues (req : J) : J :=
               J.obj [("name", DataIO.js kc.1), ("u_value", DataIO.jt v.uValue), ("g_gln", DataIO.jt v.gGln)]))),
            ("frames", J.arr (d.frames.map (fun kc => let v := ConvV.convFrame kc.2
               J.obj [("name", DataIO.js kc.1), ("u_value", DataIO.jt v.uValue), ("absorptivity", DataIO.jt v.absorptivity)]))),
+           ("schedules", J.arr (d.schedules.map (fun sc => match ConvS.convSched sc with
+              | some (.day n vs) => J.obj [("kind", J.str "day"), ("name", DataIO.js n), ("values", DataIO.jts vs)]
+              | some (.week n runs) => J.obj [("kind", J.str "week"), ("name", DataIO.js n), ("runs", J.arr (runs.map (fun r => J.arr [J.str r.1, J.ofNat r.2])))]
+              | some (.year n ps) => J.obj [("kind", J.str "year"), ("name", DataIO.js n), ("periods", J.arr (ps.map (fun r => J.arr [DataIO.js r.1, J.ofNat r.2])))]
+              | none => J.obj [("rejected", J.bool true)]))),
            ("windows", J.arr (d.windows.map (fun w =>
               let v := ConvV.convWindow w
               J.obj [("name", DataIO.js v.name), ("x", DataIO.jt v.x), ("y", DataIO.jt v.y), ("width", DataIO.jt v.width),
